@@ -86,8 +86,9 @@ def r2_fraction(rep, ctx):
     ci = m.cls("Fraction")
     SELF = ("self",)
     X = ("field", "x")
-    NUM = [("field", "numerator"), ("call", ("field", "get_numerator"), (), ())]
-    DEN = [("field", "denominator"), ("call", ("field", "get_denominator"), (), ())]
+    # the accessors, or what they are verified (below) to return: the parts of the wrapped exact fraction
+    NUM = [("field", "numerator"), ("call", ("field", "get_numerator"), (), ()), ("attr", X, "numerator")]
+    DEN = [("field", "denominator"), ("call", ("field", "get_denominator"), (), ()), ("attr", X, "denominator")]
 
     def other_like(t):
         """The other operand, possibly lifted: other | Fraction(other) | <new helper>(other) (inlined as phi)."""
@@ -220,8 +221,8 @@ def r2_fraction(rep, ctx):
         tt = cres.term(st.value)
         def mult(x, a, b):
             return x[0] == "op" and x[1] == "Mult" and len(x[2]) == 2 and a(x[2][0]) and b(x[2][1])
-        selfnum = lambda x: x in (("field", "numerator"), ("call", ("field", "get_numerator"), (), ()))
-        selfden = lambda x: x in (("field", "denominator"), ("call", ("field", "get_denominator"), (), ()))
+        selfnum = lambda x: x in (("field", "numerator"), ("call", ("field", "get_numerator"), (), ()), ("attr", ("field", "x"), "numerator"))
+        selfden = lambda x: x in (("field", "denominator"), ("call", ("field", "get_denominator"), (), ()), ("attr", ("field", "x"), "denominator"))
         othnum = lambda x: all(a[0] == "attr" and a[2] == "numerator" for a in alternatives(x))
         othden = lambda x: all(a[0] == "attr" and a[2] == "denominator" for a in alternatives(x))
         if tt[0] == "op" and tt[1] == "Sub" and mult(tt[2][0], selfnum, othden) and mult(tt[2][1], othnum, selfden):
